@@ -541,6 +541,10 @@ func (k *checker) validateAll(segs []segment, chunkEvents, par, maxRounds int) {
 				k.mu.Lock()
 				for _, s := range okSegs {
 					if s.res.Traced {
+						if s.res.Settle == "stuck" {
+							// TLC accepted it, so it is the named deviation SenderUnawareOfDelivery
+							k.stats["sender_windows_left_open_after_full_delivery"]++
+						}
 						k.stats["traces_accepted"]++
 						k.stats["trace_events_accepted"] += len(s.lines)
 						if s.sc.Restarts {
@@ -838,6 +842,9 @@ func runC36(c *core.Ctx) error {
 	}
 	c.Set("impl_commands_executed", k.acts)
 	c.Set("impl_settle_outcomes", k.settle)
+	if _, ok := k.stats["sender_windows_left_open_after_full_delivery"]; !ok {
+		k.stats["sender_windows_left_open_after_full_delivery"] = 0
+	}
 	for key, v := range k.stats {
 		c.Set(key, v)
 	}
@@ -859,6 +866,7 @@ func runC36(c *core.Ctx) error {
 	c.Assume("model checking uses 'patient' resend / resend-request timers (they expire only when nothing of the connection is in flight) except in the configurations named eager; spurious retransmissions are otherwise covered by Dup faults and by the traces of the real code")
 	c.Assume("with restarts only the projection-level core is validated (monotone prefixes per connection object, memory <= limit and equal to what live connections hold, deliveries sent and at most once); delivery of everything is claimed only without restarts")
 	c.Assume("scenarios whose full trace is not pushed through TLC are judged by TLC from their summary event (end state after the driver's own settle loop); a Go-side prefilter only selects additional traces for TLC, it never decides a verdict")
+	c.Assume("named deviation SenderUnawareOfDelivery (UdpTransport.tla): a settle loop that stops without progress is accepted when everything was delivered and received, incoming memory is 0 and only outgoing windows are open; such traces are counted in sender_windows_left_open_after_full_delivery; every other stuck settle is rejected")
 	c.Assume("timer queues of the simulator are ordered by wall-clock based deadlines: with several connections per transport the order of timer expirations is not fully reproducible; a rejected trace that is accepted on re-execution is reported as inconclusive, not as a violation")
 	return nil
 }
@@ -990,12 +998,14 @@ func (k *checker) replay() error {
 	if f.Replay.NT > 0 {
 		k.nt = f.Replay.NT
 	}
+	// a replay validates one recorded trace: one TLC behaviour
+	k.c.Add("states", 1)
+	k.c.Add("transitions", 1)
+	k.c.Sample(map[string]any{"replayed_commands": fmt.Sprintf("%q", mustHex(f.Replay.Cmds)), "restarts": f.Replay.Restarts})
 	err = k.confirm(segment{sc: scen{ID: 1, Cmds: f.Replay.Cmds, Restarts: f.Replay.Restarts, class: f.Replay.Class}}, "replay")
 	if err != nil && strings.Contains(err.Error(), "accepted when re-executed alone") {
 		k.c.Logf("replay: the trace is accepted now")
 		k.c.Add("traces_validated_against_impl", 1)
-		k.c.Add("states", 1)
-		k.c.Add("transitions", 1)
 		return nil
 	}
 	return err
